@@ -222,6 +222,8 @@ func (r *Run) onRestore(point string) {
 		if r.btx != nil || r.openViews > 0 {
 			r.viols = append(r.viols, Violation{Props: []string{"C17"}, Oracle: "snapshot", Sig: "tx-open-while-restore-holds-lock",
 				Detail: fmt.Sprintf("restore holds the reload lock while %d read transaction(s) / write transaction=%v are open", r.openViews, r.btx != nil)})
+			// going on would close the database under those transactions (and block for real): unwind now
+			r.abortFromHook = true
 		}
 	case "reload.unlock.after":
 		p := r.restoring
